@@ -149,7 +149,11 @@ def facts_dir(config='float', repo=None):
             bad = [r for r in res if r[1]]
             if bad:
                 raise AnalysisBroken('extraction failed for %d units, first: %s %s' % (len(bad), bad[0][0], bad[0][1]))
+            for hdr in ('config.h',):
+                if os.path.exists(os.path.join(builddir, hdr)):
+                    shutil.copy(os.path.join(builddir, hdr), os.path.join(d, hdr))
             index = {'config': config, 'tree': th, 'extract_s': round(time.time() - t0, 2),
+                     'commands': {e['rel']: e['command'].replace(builddir, '@BUILDDIR@') for e in entries},
                      'units': [{'rel': e['rel'], 'facts': e['facts'],
                                 'D': sorted(t[2:] for t in e['command'].split() if t.startswith('-D')),
                                 'm': sorted(t[2:] for t in e['command'].split() if t.startswith('-m'))}
@@ -197,11 +201,13 @@ def extract_variant(config, rel, files, repo=None):
     ensure_tool()
     builddir = tempfile.mkdtemp(prefix='opusverif-var-')
     try:
-        entries = _configure(config, builddir, repo)
-        ent = [e for e in entries if e['rel'] == rel]
-        if not ent:
+        # compile command of the unit as produced by cmake for the current
+        # tree (cached with the facts; config.h is kept next to them)
+        fdir, idx = facts_dir(config, repo)
+        cmdt = idx.get('commands', {}).get(rel)
+        if cmdt is None:
             return None, 'unit %s not in configuration %s' % (rel, config)
-        e = ent[0]
+        e = {'file': os.path.join(repo, rel), 'directory': fdir, 'command': cmdt.replace('@BUILDDIR@', fdir)}
         mirror = os.path.join(builddir, 'variant')
         files = dict(files)
         if rel not in files:
